@@ -123,7 +123,9 @@ OS_<TN_, TA_, NP_, TI_, TR_...>::widePreReact(EventControl& control,
 {
 	TaskStatus status;
 	status |= Initial  ::deepPreReact(control, event);
-	status |= Remaining::widePreReact(control, event);
+
+	if (!control._consumed)
+		status |= Remaining::widePreReact(control, event);
 
 	return status;
 }
@@ -139,7 +141,9 @@ OS_<TN_, TA_, NP_, TI_, TR_...>::wideReact(EventControl& control,
 {
 	TaskStatus status;
 	status |= Initial  ::deepReact(control, event);
-	status |= Remaining::wideReact(control, event);
+
+	if (!control._consumed)
+		status |= Remaining::wideReact(control, event);
 
 	return status;
 }
@@ -155,7 +159,9 @@ OS_<TN_, TA_, NP_, TI_, TR_...>::widePostReact(EventControl& control,
 {
 	TaskStatus status;
 	status |= Initial  ::deepPostReact(control, event);
-	status |= Remaining::widePostReact(control, event);
+
+	if (!control._consumed)
+		status |= Remaining::widePostReact(control, event);
 
 	return status;
 }
@@ -170,7 +176,9 @@ OS_<TN_, TA_, NP_, TI_, TR_...>::wideQuery(ConstControl& control,
 										   TEvent& event) const noexcept
 {
 	Initial  ::deepQuery(control, event);
-	Remaining::wideQuery(control, event);
+
+	if (!control._consumed)
+		Remaining::wideQuery(control, event);
 }
 
 //------------------------------------------------------------------------------
